@@ -12,10 +12,11 @@ STUBS = ['(partition) the phase fraction returned by the stub ranges over the co
          'thermo.mixture of every stream: H uninterpreted, solve_T_at_HP returns a fresh temperature (energy balance inside mix_and_split)',
          'separations.compute_phase_fraction (Rachford-Rice root finder): returns a fresh phase fraction (any real number; the real code clamps it)',
          '(rachford-rice-shortcuts) flexsolve.find_bracket keeps the bracket, flexsolve.IQ_interpolation returns a fresh point of the bracket under the contract f(point) == 0; K from 7 concrete pairs / triples',
+         '(material_balance) numpy.linalg.solve: fresh vector under the contract A x = b',
          'LLE solver inside the lle wrapper: fresh split with 0 <= l_i <= mol_i (as in C03)']
 ASSUMPTIONS = ['feeds symbolic >= 0 on a presence pattern, splits in [0,1], moisture in (0, 0.95), efficiency in [0,1]; partition coefficients from three concrete pairs (2, 0.5), (0.25, 8), (1e-3, 1e3)',
                'outlets start empty (quick) or with arbitrary previous contents (thorough, separate group)']
-OUTSIDE = ['material_balance (dense numpy.linalg.solve)', 'the vle wrapper beyond what C03 decides', 'more than 4 chemicals']
+OUTSIDE = ["material_balance(balance='composition') (an iteration) and the accuracy of numpy.linalg.solve itself (taken at its contract A x = b)", 'the vle wrapper beyond what C03 decides', 'more than 4 chemicals']
 BOUNDS = {'quick': dict(chemicals=4, inlets='<=2'), 'thorough': dict(chemicals=4, inlets='<=2', outlets='dirty')}
 IDS = ['Water', 'Ethanol', 'Octanol', 'O2']
 _fx = {}
@@ -247,6 +248,55 @@ def g_rachford_rice():
     return run
 
 
+class _LinAlg:
+    """numpy.linalg inside separations.py: solve(A, b) returns a fresh vector under its contract A x = b"""
+    def __init__(self, E):
+        self.E = E
+
+    def solve(self, A, b):
+        E = self.E
+        E.stub_called('linalg.solve')
+        n = len(b)
+        x = [E.real(f'factor{i}', nice=(0.1, 20)) for i in range(n)]
+        for i in range(n):
+            E.assume(E.eq(sum(A[i][j] * x[j] for j in range(n)), b[i]), 'linear solver contract: A x = b')
+        return C.array(E, x)
+
+
+def g_material_balance():
+    """material_balance(balance='flow'): with the linear solver at its contract (A x = b) the variable inlets are
+    scaled (composition kept) so that inlets minus outlets vanish for the chosen chemicals"""
+    def run(E):
+        from symx import shim
+        sep = C.mod('thermosteam.separations')
+        if not E.concrete:
+            np_ = shim.Shim()
+            np_.linalg = _LinAlg(E)
+            C.setg(sep, 'np', np_)
+        chosen = E.pick([(0, 1), (1, 2), (2, 0)], 'balanced-chemicals')
+        IDs = tuple(IDS[i] for i in chosen)
+        va, fa = mk(E, 'va', [1, 1, 1, E.choice(2, 'va-o2?')])
+        vb, fb = mk(E, 'vb', [1, 1, 1, 0])
+        n_const = E.choice(2, 'constant-inlet?')
+        ci, fc = mk(E, 'ci', [1, 1, E.choice(2, 'ci-octanol?'), 0]) if n_const else (None, [0.0] * N)
+        oa, foa = mk(E, 'oa', [1, 1, 1, 0])
+        two_out = E.choice(2, 'second-outlet?')
+        ob, fob = mk(E, 'ob', [E.choice(2, 'ob-water?'), 1, 1, 0]) if two_out else (None, [0.0] * N)
+        i0, i1 = chosen
+        det = fa[i0] * fb[i1] - fa[i1] * fb[i0]
+        E.assume(E.ne(det, 0.0) if not E.concrete else abs(det) > 1e-9, 'invertible inlet-composition matrix')
+        sep.material_balance(IDs, [va, vb], [ci] if ci is not None else [], [oa] + ([ob] if ob is not None else []))
+        na, nb = flows(va), flows(vb)
+        for i in range(N):
+            E.observe(f'va{i}', na[i])
+        sig = f'flow/chosen={IDs}/const={n_const}/outs={1 + two_out}'
+        E.prove('inlets-minus-outlets-vanish-for-the-chosen-chemicals',
+                E.all([E.eq(na[i] + nb[i] + fc[i], foa[i] + fob[i]) for i in chosen]), sig=sig)
+        E.prove('variable-inlets-are-scaled-as-a-whole',
+                E.all([E.eq(new[j] * old[k], new[k] * old[j]) for new, old in ((na, fa), (nb, fb)) for j in range(N) for k in range(j + 1, N)]), sig=sig)
+    return run
+
+
 def g_misc():
     def run(E):
         sep = C.mod('thermosteam.separations')
@@ -342,6 +392,7 @@ def groups(tier):
         'adjust_moisture_content': (g_moisture(), dict(max_paths=400000, qtimeout_ms=20000)),
         'partition': (g_partition(False, ('none', 'both') if q else ('none', 'top:O2', 'bottom:Octanol', 'both')), dict(max_paths=400000, qtimeout_ms=20000, stubs_required=('compute_phase_fraction',))),
         'rachford-rice-shortcuts': (g_rachford_rice(), dict(max_paths=400000, qtimeout_ms=30000, task_budget_s=200)),
+        'material_balance-flow': (g_material_balance(), dict(max_paths=400000, qtimeout_ms=30000, task_budget_s=200, stubs_required=('linalg.solve',))),
         'phase_split-chemical_splits-clipping': (g_misc(), dict(qtimeout_ms=20000)),
     }
     if not q:
